@@ -95,7 +95,10 @@ func costPlugin() *llo.Plugin {
 		DataSource:                       costDS{},
 		Logger:                           logger.Nop(),
 		OnchainConfigCodec:               llo.EVMOnchainConfigCodec{},
-		ReportCodecs:                     map[llotypes.ReportFormat]llo.ReportCodec{llotypes.ReportFormatJSON: llo.JSONReportCodec{}},
+		ReportCodecs: map[llotypes.ReportFormat]llo.ReportCodec{llotypes.ReportFormatJSON: llo.JSONReportCodec{},
+			llotypes.ReportFormatEVMPremiumLegacy:     evm.NewReportCodecPremiumLegacy(logger.Nop(), 1),
+			llotypes.ReportFormatEVMABIEncodeUnpacked: evm.NewReportCodecEVMABIEncodeUnpacked(logger.Nop(), 1),
+			llotypes.ReportFormat(6):                  evm.NewReportCodecStreamlined()},
 	})
 	rp, _, err := f.NewReportingPlugin(context.Background(), ocr3types.ReportingPluginConfig{
 		ConfigDigest: types.ConfigDigest{0xc1, 9}, N: 4, F: 1, OnchainConfig: ocb, OffchainConfig: offb, MaxDurationObservation: time.Second})
@@ -362,6 +365,36 @@ func costFamily(family string, n int) []costCall {
 			panic(err)
 		}
 		return []costCall{costValidateCall(p, obs)}
+	case "opts-exponents":
+		// channel options whose numbers are written with an exponent of n (a handful of bytes of text): a multiplier
+		// "1e<n>" (not a number for these codecs: refused), a base fee "1e-<n>" / "0E-<n>" (a legal decimal: accepted).
+		// Verifying the vote must cost what reading the text costs, not what materialising 10^n costs.
+		feed := "0x" + strings.Repeat("ab", 32)
+		defs := map[uint32]*llo.LLOChannelDefinitionProto{}
+		three := []*llo.LLOStreamDefinition{{StreamID: 1, Aggregator: 1}, {StreamID: 2, Aggregator: 1}, {StreamID: 3, Aggregator: 3}}
+		optsOf := []string{
+			fmt.Sprintf(`{"baseUSDFee":"1e-%d","expirationWindow":60,"feedID":%q,"abi":[{"type":"int192"}]}`, n, feed),
+			fmt.Sprintf(`{"baseUSDFee":"0E-%d","expirationWindow":60,"feedID":%q,"abi":[{"type":"int192"}]}`, n, feed),
+			fmt.Sprintf(`{"baseUSDFee":"1","expirationWindow":60,"feedID":%q,"abi":[{"type":"int192","multiplier":"1e%d"}]}`, feed, n),
+			fmt.Sprintf(`{"baseUSDFee":"1e-%d","expirationWindow":60,"feedID":%q,"multiplier":"10"}`, n, feed),
+			fmt.Sprintf(`{"baseUSDFee":"1","expirationWindow":60,"feedID":%q,"multiplier":"1e%d"}`, feed, n),
+		}
+		var calls []costCall
+		for i, o := range optsOf {
+			format := uint32(llotypes.ReportFormatEVMABIEncodeUnpacked)
+			if i >= 3 {
+				format = uint32(llotypes.ReportFormatEVMPremiumLegacy)
+			}
+			defs = map[uint32]*llo.LLOChannelDefinitionProto{uint32(i + 1): {ReportFormat: format, Streams: three, Opts: []byte(o)}}
+			obs, err := proto.Marshal(&llo.LLOObservationProto{UnixTimestampNanoseconds: 3_000_000_000, UpdateChannelDefinitions: defs})
+			if err != nil {
+				panic(err)
+			}
+			c := costValidateCall(p, obs)
+			c.name = fmt.Sprintf("ValidateObservation(opts %d)", i)
+			calls = append(calls, c)
+		}
+		return calls
 	case "many-defs", "big-def": // n channel definitions of one stream / one definition of n streams
 		defs := map[uint32]*llo.LLOChannelDefinitionProto{}
 		if family == "many-defs" {
@@ -715,7 +748,7 @@ func init() {
 		return resOK(out)
 	})
 	RegGen("C19", "cost.measure (implementation only): per family a size-doubling series measured in child processes — nested timestamped values up to 1 MiB, "+
-		"up to 70 000 stream values / quotes, up to 10 000 stream values that decode but are refused (timestamped around timestamped / quote), up to 200 000 remove votes and channel definitions, coefficients up to 1 MiB, exponent gaps up to 2^20, "+
+		"up to 70 000 stream values / quotes, up to 10 000 stream values that decode but are refused (timestamped around timestamped / quote), up to 200 000 remove votes and channel definitions, channel options with exponents up to 2·10^9 in multipliers and base fees, coefficients up to 1 MiB, exponent gaps up to 2^20, "+
 		"errors joined in a loop and formatted (5 definitions × up to 10 000 zero-aggregator streams, up to 4 000 failing definitions, up to 64 000 undecodable stream values in one observation, up to 2 000 channels aggregating one timestamped stream with a long-digit byzantine value, up to 2 000 channels (and one channel with up to 10 000 mentions) taking the mode of one stream on which nobody agrees, one channel of up to 10 000 streams in the previous outcome, up to 9 998 failing EVM payload values, mercury v3 Report with every consensus failing), "+
 		"and the F2 witness capped at 3 s; callbacks: ValidateObservation, ObservationCodec.Decode, Median/Quote/ModeAggregator, Outcome, Reports, Quote.IsValid, evm.CalculateFee; "+
 		"non-trivial = at least one callback measured", genC19Measure)
@@ -749,6 +782,7 @@ func genC19Measure(g *G) {
 		m("many-nested-offenders", doubling(625, 10000), nil)
 		m("vote-lists", doubling(3125, 200000), nil)
 		m("many-defs", doubling(1250, 40000), nil)
+		m("opts-exponents", []int{1000, 100000, 10000000, 2000000000}, nil)
 		m("big-def", doubling(5000, 160000), nil)
 		m("long-digits", doubling(8192, 1<<20), []int{8192, 16384, 32768, 65536})
 		m("exp-gap", doubling(1<<12, 1<<20), doubling(1<<12, 1<<20))
@@ -769,6 +803,7 @@ func genC19Measure(g *G) {
 		m("many-nested-offenders", []int{2500, 10000}, nil)
 		m("vote-lists", []int{100000, 200000}, nil)
 		m("many-defs", []int{20000, 40000}, nil)
+		m("opts-exponents", []int{100000, 10000000, 2000000000}, nil)
 		m("big-def", []int{80000, 160000}, nil)
 		m("long-digits", []int{1 << 18, 1 << 19, 1 << 20}, []int{32768, 65536})
 		m("exp-gap", []int{1 << 16, 1 << 18, 1 << 20}, []int{1 << 16, 1 << 18, 1 << 20})
